@@ -105,7 +105,7 @@ Definition account_empty_of_others (W : world) (d : denom) : bool :=
     [cross_ok]); the other four have their own constructors below. *)
 Definition local_op (o : op) : bool :=
   match o with
-  | OTransfer _ _ _ _ _ | OMove _ _ _ | OSetParams _ _ _ | OBeginBlock => false
+  | OTransfer _ _ _ _ _ | OMove _ _ _ | OSetParams _ _ _ _ | OBeginBlock => false
   | _ => true
   end.
 
@@ -192,7 +192,8 @@ Inductive mop :=
         (* MsgWithdrawEscrowProposalRequest on marker [d] for coins of another denom [e] *)
 | MAuthzGrant (granter grantee : addr) (limit : list (denom * Z)) (allow : list addr)
 | MAuthzRevoke (granter grantee : addr)
-| MSetParams (authority : addr) (mx : Z) (gv : bool)         (* MsgUpdateParamsRequest *)
+| MSetParams (authority : addr) (mx : Z) (mts : Z) (gv : bool)
+        (* MsgUpdateParamsRequest: max_supply, deprecated max_total_supply (ignored), enable_governance *)
 | MBeginBlock.
 
 Definition bb_cell (W : world) (d : denom) : option state := step_opt (view W d) OBeginBlock.
@@ -241,7 +242,7 @@ Definition mstep_opt (W : world) (o : mop) : option world :=
       guard (negb (N.eqb granter grantee)) ;;
       g <- find_grant (grants W) granter grantee ;;
       Some (with_grants W (drop_grant (grants W) granter grantee))
-  | MSetParams authority mx gv =>
+  | MSetParams authority mx _ gv =>
       guard (N.eqb authority GOV) ;;
       Some {| dom := dom W; cells := cells W; w_max := mx; w_gov := gv; grants := grants W |}
   | MBeginBlock =>
